@@ -93,6 +93,7 @@ let handle (toks : string list) : string =
   | ["version"; c; h] -> hex_of_z (block_version (cfg_of c) (z_of_string h))
   | ["ishf"; c; n; h] -> string_of_bool_ (is_hf (cfg_of c) (z_of_string n) (z_of_string h))
   | ["calcdiff"; c; t; p; gp] -> res_z (calc_difficulty (cfg_of c) (z_of_string t) (hdr_of p) (opt_tok hdr_of gp))
+  | ["testnet3"; t; p; gp] -> hex_of_z (calc_testnet3 (z_of_string t) (hdr_of p) (opt_tok hdr_of gp))
   | ["ecalcdiff"; c; chain; t; p; gp] ->
     res_z (engine_calc_difficulty (cfg_of c) (hdrs_of chain) (z_of_string t) (hdr_of p) (opt_tok hdr_of gp))
   | ["vh"; c; now; chain; h; p; gp; uncle; seal] ->
@@ -106,6 +107,11 @@ let handle (toks : string list) : string =
     (match batch_results (cfg_of c) (hdrs_of chain) (z_of_string now) (hdrs_of hs) (bools seals) (list_tok ',' event_of sched) with
      | None -> "sched-invalid"
      | Some (rs, fin) -> String.concat "," (List.map res_unit rs) ^ (if fin then "|fin" else "|open"))
+  | ["abatch"; c; now; chain; hs; seals; sched] ->
+    let aev s = if s = "A" then AAbort else AEv (event_of s) in
+    (match abatch_results (cfg_of c) (hdrs_of chain) (z_of_string now) (hdrs_of hs) (bools seals) (list_tok ',' aev sched) with
+     | None -> "sched-invalid"
+     | Some (rs, ab) -> String.concat "," (List.map res_unit rs) ^ (if ab then "|aborted" else "|running"))
   | ["seq"; c; now; chain; hs; seals] ->
     (match sequential (cfg_of c) (hdrs_of chain) (z_of_string now) (hdrs_of hs) (bools seals) O with
      | None -> "none"
@@ -123,6 +129,40 @@ let handle (toks : string list) : string =
     (match validate_with_seals (cfg_of c) (hdrs_of chain) (z_of_string now) (hdrs_of hs) (bools seals) (fun _ -> false) with
      | VOk -> "ok" | VNonContiguous -> "noncontiguous" | VBlacklisted i -> "blacklisted " ^ string_of_int (int_of_nat i)
      | VFail (i, e) -> string_of_int (int_of_nat i) ^ " err " ^ verr_name e | VPanic -> "panic")
+  | ["sealer"; v; sh; starts; events; o] ->
+    let o = oracle_of o in
+    let ev s = if s = "x" then EStop else EStep (nat_of_int (int_of_string (String.sub s 1 (String.length s - 1)))) in
+    (match seal_threads keccak256 (argon o "A") (argon o "B") (argon o "C") (hashi o) (z_of_string v) (sh_of sh)
+             (list_tok ',' z_of_string starts) (list_tok ',' ev events) with
+     | SPanic -> "panic" | SErr e -> "err " ^ serr_name e
+     | SOk s ->
+       (match s.sl_result with
+        | None -> "none"
+        | Some h -> "found " ^ hex_of_z h.s_nonce ^ " " ^ hex_of_bytes h.s_mix ^ " " ^ hex_of_z h.s_version)
+       ^ " delivered=" ^ string_of_int (int_of_nat s.sl_delivered)
+       ^ " threads=" ^ String.concat "" (List.map (function TSearch _ -> "S" | TOffer _ -> "O" | TDone -> "D") s.sl_threads))
+  | ["blockops"; sh; txs; uncles; ops; o] ->
+    (* one operation per '/'-separated token on the current block object; observations in order, "panic" ends the run *)
+    let o = oracle_of o in
+    let step b tok =
+      let op = (match String.split_on_char '.' tok with
+          | ["H"] -> BHash | ["Z"] -> BSize | ["G"] -> BHeader
+          | ["V"; v] -> BSetVersion (z_of_string v) | ["C"; v] -> BSetVersionConfig (z_of_string v)
+          | ["S"; h] -> BWithSeal (sh_of h) | ["B"; t; u] -> BWithBody (bytes_of_hex t, bytes_of_hex u)
+          | _ -> failwith "block op") in
+      block_op keccak256 (argon o "A") (argon o "B") (argon o "C") b op in
+    let show = function
+      | ObsHash x -> "h:" ^ hex_of_bytes x
+      | ObsSize n -> "z:" ^ string_of_int (int_of_n n)
+      | ObsHeader h -> "g:" ^ hex_of_bytes (rlp_full h) ^ ":" ^ hex_of_z h.s_version
+      | ObsNone -> "-" in
+    let rec go b toks acc = (match toks with
+        | [] -> List.rev acc
+        | t :: rest -> (match step b t with
+            | SOk (b', ob) -> go b' rest (show ob :: acc)
+            | SErr _ -> List.rev ("err" :: acc)
+            | SPanic -> List.rev ("panic" :: acc))) in
+    String.concat "/" (go (new_block (sh_of sh) (bytes_of_hex txs) (bytes_of_hex uncles)) (list_tok '/' (fun x -> x) ops) [])
   | ["rlpnn"; sh] -> hex_of_bytes (rlp_no_nonce (sh_of sh))
   | ["rlpfull"; sh] -> hex_of_bytes (rlp_full (sh_of sh))
   | ["hnn"; sh; o] -> let o = oracle_of o in hex_of_bytes (hash_no_nonce keccak256 (argon o "B") (sh_of sh))
